@@ -149,9 +149,17 @@ class Bag(Factory, Container):
 
     @inheritdoc(Container)
     def __iadd__(self, other):
-        self.entries = other.entries
-        self.values = other.values
-        return self
+        if isinstance(other, Bag):
+            if self.range != other.range:
+                raise ContainerException(f"cannot add Bag because range differs ({self.range} vs {other.range})")
+            self.entries += other.entries
+            for value, count in other.values.items():
+                if value in self.values:
+                    self.values[value] += count
+                else:
+                    self.values[value] = count
+            return self
+        raise ContainerException(f"cannot add {self.name} and {other.name}")
 
     @inheritdoc(Container)
     def __mul__(self, factor):
